@@ -102,6 +102,13 @@ def check_case(ctx: Ctx, c: Dict[str, Any], files: bool = False, scratch: str = 
     g = guarded("Grid.from_seq", lambda: Grid.from_seq([float(v) for v in n] + spacing + origin + direction, origin=True))
     if g is not None:
         cmp("Grid.from_seq(origin=True).index_to_world", g.index_to_world(pts), phys, tol32)
+    import numpy as np
+
+    flat = [float(v) for v in n] + spacing + origin + direction
+    for form_name, arr in (("list", flat), ("ndarray", np.asarray(flat))):
+        g = guarded("Grid.from_numpy", lambda: Grid.from_numpy(arr, origin=True), form=form_name)
+        if g is not None:
+            cmp("Grid.from_numpy(origin=True).index_to_world", g.index_to_world(pts), phys, tol32, form=form_name)
     g0 = Grid(size=n, origin=origin, spacing=spacing, direction=direction)
     g = guarded("Grid.from_numpy", lambda: Grid.from_numpy(g0.numpy()))
     if g is not None:
@@ -130,6 +137,16 @@ def check_case(ctx: Ctx, c: Dict[str, Any], files: bool = False, scratch: str = 
         tol64 = bound(scale, F64, 1e-9)
         cmp("GridAttrs.index_to_physical_space", ga.index_to_physical_space(P), phys, tol64)
         cmp("GridAttrs.physical_space_to_continuous_index", ga.physical_space_to_continuous_index(P), index, tol64)
+    # ... and constructed directly, with the direction given flat and as a nested matrix
+    from deepali.utils.simpleitk.grid import GridAttrs
+
+    D_ = len(n)
+    for form_name, dirn in (("flat", direction), ("matrix", np.asarray(direction).reshape(D_, D_)), ("nested", np.asarray(direction).reshape(D_, D_).tolist())):
+        ga = guarded("GridAttrs", lambda: GridAttrs(size=tuple(n), origin=tuple(origin), spacing=tuple(spacing), direction=dirn), form=form_name)
+        if ga is not None:
+            tol64 = bound(scale, F64, 1e-9)
+            cmp("GridAttrs().index_to_physical_space", ga.index_to_physical_space(P), phys, tol64, form=form_name)
+            cmp("GridAttrs().physical_space_to_continuous_index", ga.physical_space_to_continuous_index(P), index, tol64, form=form_name)
     # (b4) through a file header
     if files:
         for ext in (".mha", ".nii.gz" if D == 3 else ".nrrd"):
